@@ -233,19 +233,24 @@ CHECKS = {
         technique="Coq proof of a certified relational checker (closest_ok <-> ClosestSpec) and of the algorithm model against the brute-force specification + differential execution judged inside Coq (vm_compute)",
         design="5/C16"),
     "C01": dict(
-        text=("Theorems (closed under the global context): the search algorithm of FileSet.find (end - 1 us, directory pruning with "
-              "one-period look-back, truncation to the resolution of all levels parsed so far, year-only fallback, closed overlap, "
+        text=("20 theorems (closed under the global context): the search algorithm of FileSet.find (end - 1 us, directory pruning "
+              "with one-period look-back, truncation to the resolution of all levels parsed so far, year-only fallback, closed overlap, "
               "exclusion through the C03 interval tree, white/black lists, stable sort, count and time bundles, `in`, len, "
               "single-file filesets) is modelled in Gallina and proved equal to sort-after-filter for every layout without "
               "placeholder gaps, every population of valid files placed in the directory of their start time and no longer than one "
               "period of the finest level, and every well-formed period (find_sound_complete: Sorted, Permutation of the filter, "
-              "equal to find_spec); find_each_once, semi_open, exclusion_exact, layout_independent, contains_agrees, len_agrees, "
-              "both bundle partitions and the single-file cases are further theorems; the pre-fix algorithm is refuted in Coq "
-              "(find_asis_refuted). Tie: the real FileSet on generated directory trees written with the harness's own renderer "
-              "(130 quick / 1670 thorough incl. fsspec zip), compared with the specification inside the hypotheses (a mismatch is a "
-              "failing input) and with the algorithmic model outside them. Not stated: stability of the sort among equal keys."),
-        note=COMMON_NOTE + " Python re/glob/fsspec listing, pandas Grouper bin edges for string bundles and name parsing (C02, cross-checked per found file) are trusted.",
-        technique="Coq refinement proof (algorithmic model = brute-force specification; monotonicity of calendar truncation) + differential execution on harness-rendered trees evaluated by vm_compute",
+              "equal to find_spec); find_each_once, semi_open, exclusion_exact, layout_independent, contains_agrees, len_agrees, both "
+              "bundle partitions and the single-file cases; the sort is proved stable and the result is the unique key-sorted "
+              "sequence that keeps, coverage by coverage, the order of the directory walk (find_sorted_stable, find_result_unique, "
+              "find_stable_any_input); time bundles are exactly the non-empty bins [o + k w, o + (k+1) w), o = midnight of the first "
+              "file's day, in increasing order, for every width w > 0 (bin_edges, bundle_freq_bins); the pre-fix algorithm is refuted "
+              "in Coq (find_asis_refuted). Tie: the real FileSet on generated directory trees written with the harness's own "
+              "renderer (136 quick / 1830 thorough incl. 160 fsspec zip), compared with the specification inside the hypotheses (a "
+              "mismatch is a failing input) and with the algorithmic model outside them; ties of (t0, t1) are checked against the "
+              "unsorted stream of the same FileSet, every time-bundle query (widths 30min ... 2D) bin by bin with the Coq edges and "
+              "with pandas' own group labels."),
+        note=COMMON_NOTE + " Python re/glob/fsspec listing (walk order observed, not proved), pandas' grouping apart from the compared bin edges, and name parsing (C02, cross-checked per found file) are trusted; calendar-dependent frequencies are outside the model.",
+        technique="Coq refinement proof (algorithmic model = brute-force specification; monotonicity of calendar truncation; stability and uniqueness of the sort) + differential execution on harness-rendered trees (local and zip) evaluated by vm_compute",
         design="5/C01"),
     "C17": dict(
         text=("coq/gen/oem.v (mathcomp matrix terms) is REGENERATED from typhon/retrieval/oem on every run; 23 theorems, closed under the "
